@@ -319,5 +319,16 @@ pub fn run(run: &mut Run) -> &'static str {
             }
         }
     });
+    // thorough: coverage-guided fuzzing of the walk tape (libFuzzer target `positions`: the C16, C18 and
+    // C20 position oracles inside); crashing tapes are judged here by this property's oracle
+    let crashes: Vec<PosCase> = super::fuzzglue::campaign(run, "positions", 250_000, 12, 400).into_iter().map(PosCase::Tape).collect();
+    if !crashes.is_empty() {
+        run.exhaustive_part("fuzz_crashes", RULE, crashes, |c: &PosCase, st: &mut Stats| {
+            for gp in c.positions(Mix::General, 16, st) {
+                check_position(&gp.pos, st)?;
+            }
+            Ok(())
+        });
+    }
     RULE
 }
